@@ -41,7 +41,7 @@ def classes(a, spec, res):
     return sorted("dist_" + k for k in kinds)
 
 
-BAD_TIME = [-1, -0.5, "nan", None, "x"]
+BAD_TIME = [-1, -0.5, "nan", None, "x", -1e-12, -5.5e-17, -1e-7]
 BAD_BATCH = [2.5, -1, None, "x", 1.0]
 
 
